@@ -96,7 +96,7 @@ func ruleC08Once(c *Ctx) {
 		fn := p.SSAFunc(p.Method("boltz", "BaseStore", m))
 		name := FnName(fn)
 		c.Analysed(name)
-		fi := ComputeFacts(fn)
+		_ = ComputeFacts
 		loops := loopsOf(fn)
 		var parents, fires, loads []ssa.CallInstruction
 		for _, call := range callsIn(fn) {
@@ -126,7 +126,7 @@ func ruleC08Once(c *Ctx) {
 			for _, target := range []ssa.CallInstruction{parents[0], fires[0]} {
 				ri := reachWithoutFrom(fn, persist, func(in ssa.Instruction) bool { return in == ssa.Instruction(target) })
 				for _, r := range returnsOf(fn) {
-					if (ri.entryReach[r.Block()] || r.Block() == persist.Block()) && ri.Reaches(r) && classifyErr(fi, r.Block(), r.Results[0], 0) != errNonNil {
+					if (ri.entryReach[r.Block()] || r.Block() == persist.Block()) && ri.ReachesSuccess(r, 0) {
 						ok, why = false, "a successful return is reachable after the persist without "+describeInstr(target)
 					}
 				}
@@ -448,39 +448,9 @@ func ruleC08TxComplete(c *Ctx) {
 // noPathAvoidingSuccess: like noPathAvoiding but only paths ending in a possibly-successful return count.
 func noPathAvoidingSuccess(fn *ssa.Function, fi *FactInfo, avoid func(ssa.Instruction) bool, allowed func(from, to *ssa.BasicBlock) bool) bool {
 	ei := errorResultIndex(fn.Signature)
-	seen := map[*ssa.BasicBlock]bool{}
-	var dfs func(b *ssa.BasicBlock) bool
-	dfs = func(b *ssa.BasicBlock) bool {
-		if seen[b] {
-			return false
-		}
-		seen[b] = true
-		for _, in := range b.Instrs {
-			if avoid(in) {
-				return false
-			}
-		}
-		if len(b.Succs) == 0 {
-			r, isRet := b.Instrs[len(b.Instrs)-1].(*ssa.Return)
-			if !isRet {
-				return false
-			}
-			if ei >= 0 && classifyErr(fi, b, r.Results[ei], 0) == errNonNil {
-				return false
-			}
-			return true
-		}
-		for _, s := range b.Succs {
-			if allowed(b, s) {
-				continue
-			}
-			if dfs(s) {
-				return true
-			}
-		}
-		return false
-	}
-	return !dfs(fn.Blocks[0])
+	ps := &pathSearch{fn: fn, fi: fi, start: fn.Blocks[0], stop: avoid, skipEdge: allowed}
+	ps.atReturn = func(r *ssa.Return, k knowMap) bool { return !returnIsFailure(fi, r, ei, k) }
+	return !ps.run()
 }
 
 // ================================ C15 ===========================================================
@@ -535,29 +505,9 @@ func ruleC15ScanFilter(c *Ctx) {
 
 // noPathFromToAvoiding: no path from `from` to `target` (within the function) avoids all allowed edges.
 func noPathFromToAvoiding(from, target ssa.Instruction, allowed func(a, b *ssa.BasicBlock) bool) bool {
-	seen := map[*ssa.BasicBlock]bool{}
-	var dfs func(b *ssa.BasicBlock, startIdx int) bool
-	dfs = func(b *ssa.BasicBlock, startIdx int) bool {
-		for i := startIdx; i < len(b.Instrs); i++ {
-			if b.Instrs[i] == target {
-				return true
-			}
-			if b.Instrs[i] == from && i != startIdx-1 && startIdx == 0 {
-				return false // next iteration begins: stop
-			}
-		}
-		for _, s := range b.Succs {
-			if allowed(b, s) || seen[s] {
-				continue
-			}
-			seen[s] = true
-			if dfs(s, 0) {
-				return true
-			}
-		}
-		return false
-	}
-	return !dfs(from.Block(), instrIndex(from)+1)
+	ps := &pathSearch{fn: from.Parent(), start: from.Block(), startIdx: instrIndex(from) + 1, skipEdge: allowed, restart: from,
+		target: func(in ssa.Instruction) bool { return in == target }}
+	return !ps.run()
 }
 
 func ruleC15Valid(c *Ctx) {
@@ -1340,11 +1290,11 @@ func ruleC17NoCache(c *Ctx) {
 	name := FnName(fn)
 	c.Analysed(name)
 	view := p.Method("boltz", "DbImpl", "View")
-	fi := ComputeFacts(fn)
+	_ = ComputeFacts
 	ri := reachWithout(fn, func(in ssa.Instruction) bool { return isCallTo(in, view) })
 	ok := true
 	for _, r := range returnsOf(fn) {
-		if ri.Reaches(r) && classifyErr(fi, r.Block(), r.Results[1], 0) != errNonNil {
+		if ri.ReachesSuccess(r, 1) {
 			ok = false
 		}
 	}
